@@ -274,6 +274,40 @@ theorem c10_gen_claim_bytes :
       claimBytes (argBytes ai) (1 + rest.length) 1 = !decide (rest.length < argBytes ai)) :=
   ⟨gen_claim_bytes, gen_claim_model⟩
 
+set_option maxRecDepth 20000 in
+/-- The callback table cbor.c hands to libcbor, regenerated slot by slot (the decode-table theorem below
+reads the aws type of each slot from it): each slot's aws callback stores one fixed element type and the
+libcbor argument unchanged but for the widening cast listed. -/
+theorem c10_gen_callbacks :
+    awsCallbacks.map (fun r => (r.1, r.2.2.1, r.2.2.2.2)) =
+      [("uint8", "AWS_CBOR_TYPE_UINT", "uint64_t"), ("uint16", "AWS_CBOR_TYPE_UINT", "uint64_t"),
+       ("uint32", "AWS_CBOR_TYPE_UINT", "uint64_t"), ("uint64", "AWS_CBOR_TYPE_UINT", ""),
+       ("negint64", "AWS_CBOR_TYPE_NEGINT", ""), ("negint32", "AWS_CBOR_TYPE_NEGINT", "uint64_t"),
+       ("negint16", "AWS_CBOR_TYPE_NEGINT", "uint64_t"), ("negint8", "AWS_CBOR_TYPE_NEGINT", "uint64_t"),
+       ("byte_string_start", "AWS_CBOR_TYPE_INDEF_BYTES_START", ""), ("byte_string", "AWS_CBOR_TYPE_BYTES", ""),
+       ("string", "AWS_CBOR_TYPE_TEXT", ""), ("string_start", "AWS_CBOR_TYPE_INDEF_TEXT_START", ""),
+       ("indef_array_start", "AWS_CBOR_TYPE_INDEF_ARRAY_START", ""), ("array_start", "AWS_CBOR_TYPE_ARRAY_START", ""),
+       ("indef_map_start", "AWS_CBOR_TYPE_INDEF_MAP_START", ""), ("map_start", "AWS_CBOR_TYPE_MAP_START", ""),
+       ("tag", "AWS_CBOR_TYPE_TAG", ""), ("float2", "AWS_CBOR_TYPE_FLOAT", "double"),
+       ("float4", "AWS_CBOR_TYPE_FLOAT", "double"), ("float8", "AWS_CBOR_TYPE_FLOAT", ""),
+       ("undefined", "AWS_CBOR_TYPE_UNDEFINED", ""), ("null", "AWS_CBOR_TYPE_NULL", ""),
+       ("boolean", "AWS_CBOR_TYPE_BOOL", ""), ("indef_break", "AWS_CBOR_TYPE_BREAK", "")] := by
+  rw [gen_callbacks]; decide
+
+set_option maxRecDepth 20000 in
+/-- The bookkeeping functions of cbor.c, regenerated as text: `reset` is one unconditional
+`aws_byte_buf_reset`, the encoded data is the whole buffer, the position / room handed to libcbor are
+`buffer + len` / `capacity - len`, a new decoder starts with the given source, an empty cache and no error,
+and the remaining length is `src.len`. -/
+theorem c10_gen_accessors :
+    accessorBodies.lookup "aws_cbor_encoder_reset" = some "{aws_byte_buf_reset(&encoder->encoded_buf,0)}" ∧
+    accessorBodies.lookup "aws_cbor_encoder_get_encoded_data" = some "{return aws_byte_cursor_from_buf(&encoder->encoded_buf);}" ∧
+    accessorBodies.lookup "s_get_encoder_current_position" = some "{return (encoder->encoded_buf.buffer+encoder->encoded_buf.len);}" ∧
+    accessorBodies.lookup "s_get_encoder_remaining_len" = some "{return (encoder->encoded_buf.capacity-encoder->encoded_buf.len);}" ∧
+    accessorBodies.lookup "aws_cbor_decoder_get_remaining_length" = some "{return decoder->src.len;}" ∧
+    accessorBodies.length = 7 := by
+  rw [gen_accessors]; decide
+
 /-- The switch of `cbor_stream_decode`, regenerated as one row per initial byte: in every row the loader
 reads exactly the bytes that were claimed (the initial byte, or the 1/2/4/8 bytes after it) and string
 data starts right behind the length bytes; and the model's `streamDecode` agrees with every row (error
